@@ -288,6 +288,25 @@ def run(F, R, tier):
             ok = bool(outer)
         R.ob("C03-c", "an npm specifier is recorded as resolved only after the resolver answered for it in this pass", ok,
              "a path records an npm specifier as a healthy module without a preceding resolve_pkg_reqs call for it: a failed requirement would be reported for the first specifier only and its siblings would look loaded", where(lp))
+    # resolver answers are attributed to requirements by position: the request
+    # list and the `results` of the answer are zipped as they are
+    zips = [n for n in nr["_nodes"] if n.get("k") == "MethodCall" and n["name"] == "zip" and any(mentions_field(a_, "results") for a_ in n["args"])]
+    if R.ob("C03-c", "batch npm answers are zipped with their requests", len(zips) == 1, "NpmSpecifierResolver::resolve no longer zips requests with result.results", nr["file"]):
+        z = zips[0]
+        def plain_iter(e):
+            e = peel(e)
+            if e.get("k") == "MethodCall" and e["name"] in ("into_iter", "iter") and not e.get("args"):
+                return peel_value(e["recv"])
+            return None
+        lhs, rhs = plain_iter(z["recv"]), plain_iter(z["args"][0])
+        if rhs is None:
+            r0 = peel_value(z["args"][0])
+            rhs = r0 if r0.get("k") == "Field" else None
+        rq = [n for n in nr["_nodes"] if callee_matches(n, ["NpmResolver::resolve_pkg_reqs"]) and may_reach(F, n, z)]
+        same_list = lhs is not None and lhs.get("res") == "local" and any(any(w.get("lid") == lhs["lid"] for w in walk(a_)) for q in rq for a_ in call_args(q)[1:])
+        from_answer = rhs is not None and rhs.get("k") == "Field" and rhs["field"] == "results" and any(any(y is q or is_within(q, y) for q in rq) for y in through_locals(rhs["e"]))
+        R.ob("C03-c", "the i-th answer is attributed to the i-th requirement", same_list and from_answer,
+             "requests and answers are not paired position by position (`%s`): a failed requirement's error would be filed under another package's specifiers, which then look loaded" % expr_text(z)[:80], where(z))
     # every entry written while draining deferred content loads belongs to the completed item
     hc = F.body("graph::Builder::handle_jsr_registry_pending_content_loads")
     lp = [n for n in hc["_nodes"] if n["k"] == "While"]
